@@ -363,7 +363,7 @@ func (ev *symEval) val(fr *symFrame, v ssa.Value) SV {
 	case *ssa.Global:
 		return SV{K: "addr", Desc: "global:" + globalName(x)}
 	case *ssa.Function:
-		return SV{K: "ref", Known: true, Nil: false, Desc: "func " + extName(x)}
+		return SV{K: "ref", Known: true, Nil: false, Desc: "func " + extName(x), Fn: x} // (a plain function or a method expression used as a value)
 	case *ssa.Builtin:
 		return symOpaque("builtin " + x.Name())
 	}
